@@ -425,18 +425,24 @@ class _T:
         return And(same_hist(old.self, a.self), independent(result, a.self))
 
 
-@contract(HNDK + ".accumulate", props=["C09"])
+@contract(HNDK + ".accumulate", props=["C09", "C13"])
 class _accumulate:
     bounded = True
     bound_note = BOUND
 
     def configs():
-        return [{"shape": (2, 2), "axis": 0}, {"shape": (2, 2), "axis": 1}, {"shape": (2, 2), "axis": "y"}]
+        return [{"shape": (2, 2), "axis": 0}, {"shape": (2, 2), "axis": 1}, {"shape": (2, 2), "axis": "y"},
+                {"shape": (2, 2), "axis": 0, "dtype": "int16"}]       # a narrow integer histogram: the running sums must not wrap
 
     def inputs(b):
         c = b.cfg
         bins = nd_binnings(b, c.shape, ("static", "static"))
-        return dict(self=histnd(b, "h", bins, c.shape, meta={"name": None, "axis_names": ("x", "y")}), axis=c.axis)
+        return dict(self=histnd(b, "h", bins, c.shape, dtype=getattr(c, "dtype", "int64"), meta={"name": None, "axis_names": ("x", "y")}), axis=c.axis)
+
+    @ensures("running_sums_are_accumulated_in_numpys_default_accumulator_type")
+    def _(a, old, result):
+        wide = np.ones(1, attr(old.self, "_dtype")).cumsum().dtype
+        return And(attr(result, "_dtype") == wide, dtype_of(attr(result, "_frequencies")) == wide, dtype_consistent(result))
 
     @ensures("cumulative_sums_along_exactly_that_axis")
     def _(a, old, result):
